@@ -200,7 +200,11 @@ class Mem:
         e = symx.engine()
         for _ in range(64):
             overlap = z3.And(d > -n, d < ln)
-            if e.ask(overlap) != "sat":
+            r = e.ask(overlap)
+            if r == "unknown":
+                # an undecided aliasing question must not be read as "no overlap": the path is inconclusive
+                raise symx.Inconclusive()
+            if r != "sat":
                 return None
             dv = e.pick(d, overlap)
             before = len(e.pending)
